@@ -178,9 +178,11 @@ func (h *history) do(t int, n int, c call) {
 		out.L = []string{}
 	}
 	h.evs[t] = append(h.evs[t], in, out)
+	progress.Add(1)
 }
 
 var nHist int
+var current atomic.Value // name of the backend in use
 
 func barrierStart(threads int, body func(t int)) {
 	var ready, start atomic.Int32
@@ -254,8 +256,58 @@ func overlapping(rec map[string]any) bool {
 	return false
 }
 
+// callers that stop waiting: mutations on keys of their own whose context ends before or during the call.  They are not part of
+// any recorded history (their keys are never used again); what is judged is that the histories recorded afterwards on the same
+// store are still linearizable, i.e. that an abandoned call leaves nothing behind in the store's shared machinery.
+func abandon(b backend, round int) {
+	key := []byte(fmt.Sprintf("x%da", round))
+	b.kv.PrefixAppend(ctx, key, []byte("c1"))
+	busy.Add(1)
+	defer busy.Add(-1)
+	// exactly one abandoned call: the reply nobody waits for would be a conflict
+	cctx, cancel := context.WithCancel(ctx)
+	if round%2 == 0 {
+		cancel() // ended before the call
+	} else {
+		go func(spin int) { // ends while the call runs
+			for i := 0; i < spin*300; i++ {
+				_ = i
+			}
+			cancel()
+		}(round % 7)
+	}
+	b.kv.PrefixAppend(cctx, key, []byte("c1"))
+	cancel()
+	progress.Add(1)
+}
+
+// watchdog: a call that does not return is not a reply the specification could judge, but the histories completed before it are.
+// When nothing returns for 20 s while calls are outstanding, everything recorded so far is flushed with a "hung" mark and the
+// driver ends.
+var progress, busy atomic.Int64
+
+func watchdog(names func() string) {
+	last, since := int64(-1), time.Now()
+	for {
+		time.Sleep(500 * time.Millisecond)
+		p := progress.Load()
+		if p != last || busy.Load() == 0 {
+			last, since = p, time.Now()
+			continue
+		}
+		if time.Since(since) > 20*time.Second {
+			verifkit.Emit(map[string]any{"stat": "hung", "backend": names()})
+			verifkit.Flush()
+			os.Exit(0)
+		}
+	}
+}
+
 // one history on two fresh keys
 func run(b backend, scripts [][]call, kind string, extra map[string]any) {
+	current.Store(b.name)
+	busy.Add(1)
+	defer busy.Add(-1)
 	h := newHistory(b, len(scripts), new(atomic.Uint64))
 	barrierStart(len(scripts), func(t int) {
 		for n, c := range scripts[t-1] {
@@ -271,6 +323,9 @@ func run(b backend, scripts [][]call, kind string, extra map[string]any) {
 // objects, so every key is one history (stamps from one counter for the whole sweep).  Histories with overlapping calls and
 // every 16th other one are emitted.
 func sweep(b backend, scripts [][]call, kind string, R int) (emitted, total int) {
+	current.Store(b.name)
+	busy.Add(1)
+	defer busy.Add(-1)
 	threads := len(scripts)
 	seq := new(atomic.Uint64)
 	hs := make([]*history, R)
@@ -422,6 +477,8 @@ func main() {
 		}
 	}()
 	atoi := func(i int) int { n, _ := strconv.Atoi(rest[i]); return n }
+	current.Store("")
+	go watchdog(func() string { return current.Load().(string) })
 	hist := func(n, threads, opsPer int) {
 		for _, name := range names {
 			r := verifkit.Rand(18) // the same scripts on every backend
@@ -431,6 +488,10 @@ func main() {
 					th = 3
 				}
 				s, theme := randomScripts(r, th, opsPer)
+				if i%3 == 1 {
+					abandon(bs[name], i)
+					theme += "-after-abandoned-calls"
+				}
 				run(bs[name], s, "random-"+theme, nil)
 			}
 		}
@@ -495,6 +556,9 @@ func main() {
 				}
 			}
 			for rep := 0; rep < 200; rep++ {
+				if strings.Contains(c.Kind, "after-abandoned-calls") && rep%3 == 0 {
+					abandon(b, 1000+rep)
+				}
 				run(b, c.Scripts, c.Kind, map[string]any{"i": i})
 			}
 		})
